@@ -46,6 +46,22 @@ CLAIMS = {
   text="Structural injectivity of the id expression for all well-formed type terms (C14_structural) with the necessity of its hypothesis refuted-and-replayed (C14_structural_unrestricted_refuted); pairwise distinctness of the model's ids on an explicit universe of 5010 terms of depth <= 3 by kernel computation (C14_universe_distinct); as_u128 faithful; QueryID injective up to the named key-hash hypothesis; model tied to the real constants of 5010 concrete Rust types + 320 run-time cases on every run.",
   note="Uniqueness over all Rust types is not claimed (128-bit hash). Key-hash collision freeness is a Section hypothesis. Known finding block_scoped_twin_ids (derive names block-scoped types identically). Cross-process stability is tested (two processes), not proved; cross-version stability is excluded by design (version is in the name).",
   tech="machine-checked proof in Coq (u64 mask/shift arithmetic proved = mod 2^64; induction over nested terms; vm_compute NoDup decision with soundness lemma) + differential check of real STABLE_TYPE_ID constants + real-id oracle"),
+ "C04": dict(
+  text="Protocol model of the phase lock (writer: lock / create batch / bump timestamp / stage timestamp, then write and commit or drop; readers: lock / load timestamp, compute with own write batches, drop; arbitrary scheduler, any number of readers). Proved in Coq: every order of these calls accepted by order_ok is safe under every schedule (a tracked engine that was handed out holds the timestamp of exactly the committed sessions, never sees a half-written session; the session batch is younger than every earlier reader batch), every other order has a violating schedule (finite check lifted), and the order the source has NOW (scanned from database/sync.rs on every run) is accepted. The pre-fix order (F6/F9) is one of the refuted ones. PARTIAL: that the futures take exactly these steps and always make progress is validated by stress runs on the real engine, not proved.",
+  note="Trusted: Coq kernel; scanner tools/gen_sources.py (fixed code shape); H-atomic (tokio RwLock mutual exclusion, SeqCst atomics); liveness under tokio's scheduler not proved.",
+  tech="machine-checked proof in Coq (inductive invariant over arbitrary schedules; finite case analysis over the 48 orders) instantiated by a source-derived order + stress oracle on the real engine"),
+ "C05": dict(
+  text="Core fragment of the engine model: cancelled work modelled as completed sub-requests with arbitrary caller kind / pedantic flag / frame / computing stack interleaved anywhere in a history; proved in Coq that every later answer is still the from-scratch value, no panic, and nothing is executed twice in an epoch (side condition on the stack shown necessary and satisfied by every real stack). PARTIAL: dropping real futures at real suspension points, executor panics and dropped commit futures are exercised on the real engine (yielding at every query, futures dropped after 0..24 polls) and judged by the from-scratch oracle and a progress timeout, not proved; firewalls/projections only through that oracle.",
+  note="Trusted: Coq kernel; hand-written core model; the identification 'cancellation leaves exactly the completed sub-requests behind' (publications are the last action of a sub-request and run in guarded sections) is by reading slow_path.rs/computing.rs/guard.rs, validated by the runs.",
+  tech="machine-checked proof in Coq (invariant preserved by requests with arbitrary callers and stacks) + cancellation/panic injection on the real engine judged by the from-scratch oracle"),
+ "C07": dict(
+  text="Core fragment: a restart resets only volatile fields, the soundness invariant mentions persisted columns only, C01_core_sound therefore covers histories with restarts anywhere, and an answer that was up to date is served again without any execution (C07_core_no_reexecution); full model: which columns a restart keeps. PARTIAL: that the store holds exactly those columns after a clean shutdown is validated by random histories with restarts on the db-backed engine (cache capacities 1/2/64 and more, grouping policies) compared exactly with the model and judged by the oracles; C09/C10/C12 prove the layers underneath separately.",
+  note="Trusted: Coq kernel; hand-written models; in-memory KvDatabase implementation of the harness (public traits) instead of RocksDB/Fjall for these runs (C11 validates the real backends separately).",
+  tech="machine-checked proof in Coq (invariant over persisted columns; no-re-execution theorem) + differential correspondence with restarts + oracles"),
+ "C08": dict(
+  text="Store layer: every intermediate commit log is a prefix of the final one at whole-batch boundaries in creation order and folds into the store like sequential application (C10's theorems in the crash reading). Engine layer (core fragment): the state at a batch boundary = completed sub-requests of the request in flight; after restart every answer is the from-scratch value for the inputs in the prefix (C08_core_sound_after_crash). PARTIAL: H-backend, and 'store content = model columns', validated by reopening the real engine on EVERY prefix of the physical commit log of random histories (all query kinds) and judging it with the from-scratch oracle.",
+  note="Trusted: Coq kernel; C10's pipeline model; H-backend (atomic physical batch, crash keeps a prefix) holds by construction for the harness store and is NOT crash-tested on RocksDB/Fjall here (no SIGKILL runs).",
+  tech="machine-checked proof in Coq (prefix theorems of the reorder pipeline + cancellation theorem with restart) + fault enumeration: reopen at every physical commit boundary"),
 }
 
 def entry(pid, c):
